@@ -54,6 +54,7 @@ func (a *Operator) Run(input string) (string, error) {
 
 func (a *Operator) assemble(assembleParser *parser.Parser, input *bytes.Buffer) (string, error) {
 	fileScanner := bufio.NewScanner(bytes.NewReader(input.Bytes()))
+	fileScanner.Buffer(nil, utils.MaxLineLength)
 	fileScanner.Split(bufio.ScanLines)
 	processor = processors.NewAssemble(a.ctx)
 	processorStack.push(processor)
